@@ -305,11 +305,19 @@ C12d(cx, s, nh, unchanged) ==
 (***************************************************************************)
 (* C13  Ephemeral cleanup is safe, happens once, and is not forgotten      *)
 (***************************************************************************)
+(* while offered: an executed Ephemeral all of whose direct downstreams have finished *)
 C13a(cx, s) ==
   V(Alive(s) /\ s.cleanup # {},
     \A j \in s.cleanup :
        /\ cx.c.kind[j] = "E" /\ j \in s.succ
-       /\ \A d \in Downs(cx.c, j) : s.jst[d] \in SuccessStates \cup SkippedStates)
+       /\ \A d \in Downs(cx.c, j) : FinJ(s, d))
+(* "only if AT THAT MOMENT none of them has failed, been upstream-failed or aborted": judged when
+   the offer is made.  (A downstream Output that was validly skipped then may be relabelled
+   upstream-failed later while the offer stands - "it stays offered until acknowledged".) *)
+C13f(cx, pre, post) ==
+  V(Alive(post) /\ post.cleanup \ pre.cleanup # {},
+    \A j \in post.cleanup \ pre.cleanup :
+       \A d \in Downs(cx.c, j) : post.jst[d] \in SuccessStates \cup SkippedStates)
 C13b(cx, s) == V(Alive(s) /\ s.cleaned # {}, s.cleaned \cap s.cleanup = {})
 C13c(pre, post, call, res) ==
   V(Alive(post) /\ pre.cleanup # {} /\ res = "ok",
